@@ -1536,6 +1536,8 @@ class Interp:
                     aid = self.fresh('acc')
                     self.accs[aid] = {'entries': [], 'fn': self.frame['fn'], 'name': let_name, 'line': e['line']}
                     return ('acc', aid)
+                if segs[-2] == 'Vec' and last in ('new', 'default') and not let_mut:
+                    return ('tuple', [])       # an empty Vec that is not bound mutably stays empty
                 return ('new', segs[-2], self.fresh('c'), tuple(l[0] for l in self.frame['loops']), self.frame['callee'])
             if last in ('new', 'default') and len(segs) >= 2 and segs[-2] == 'TokenStream' and not args and let_name is not None and let_mut:
                 # a token stream that is appended to (`ts.extend(quote!(..))`): an accumulator whose view is a synthetic template
